@@ -45,4 +45,21 @@ theorem evaluator_verdict (cfg : Cfg) (el : Element) :
       simp [h2, h3, h4, bne, timeIsRemoval_eq_expired]
     · simp [h1, h2]
 
+theorem elementRange_false_flag (cfg : Cfg) (content : Bytes) (el : Element) (st en : Token)
+    (r : Rng) (p : Option Rng) (b : Bool) (h : elementRange cfg content false el st en = some (r, p, b)) :
+    b = true := by
+  unfold elementRange at h
+  cases hs : isSkip el <;> rw [hs] at h
+  · cases he : evaluatorFor cfg el.name <;> rw [he] at h
+    · simp at h
+    · rename_i ev
+      cases hv : ev el <;> simp [hv] at h
+      cases hc : createRange content el st en with
+      | mk r' p' =>
+        rw [hc] at h
+        simp only at h
+        exact h.2.2.2
+  · simp at h
+
+
 end Chiritori
